@@ -1057,7 +1057,7 @@ struct Engine
                         }
                     }
                 }
-                if (states > a.max_states || time_up() || viols.size() >= 5)
+                if (states > a.max_states || time_up() || viols.size() >= 3)
                 {
                     // (a handful of witnesses is enough: on a broken tree corrupted states multiply)
                     capped = true;
